@@ -321,6 +321,8 @@ class Tr:
             return self.typeof(n.a)
         if k == 'mcall':
             if n.name in ('is_negative', 'is_nonnegative', 'is_zero', 'ct_eq', 'is_identity'): return 'B'
+            if n.name == 'pow': return self.typeof(n.e)
+            if n.name == 'into': return self.typeof(n.e)
             if n.name in ('square', 'abs', 'double', 'pow', 'inverse', 'unwrap', 'clone', 'pow_le_limbs', 'our_sqrt'): return self.typeof(n.e) if n.name in ('unwrap', 'clone') else ('F' if self.typeof(n.e) != 'P' else 'P')
             return self.typeof(n.e)
         if k == 'field':
@@ -334,7 +336,10 @@ class Tr:
             return 'F'
         if k == 'if':
             return 'F'
-        if k == 'index': return 'Z'
+        if k == 'index':
+            if n.e.k == 'field' and n.e.e.k == 'var' and n.e.e.name in self.cfg.get('tables', ()):
+                return 'Z' if n.e.name == 's_lookup' else 'F'
+            return 'Z'
         return 'F'
     # -- expressions
     def e(self, n):
@@ -398,6 +403,9 @@ class Tr:
             if m == 'our_sqrt': return '(%s %s)' % (self.cfg['calls']['our_sqrt'][0], x)
             if m == 'rev': return '(rev %s)' % x
             if m == 'inverse': return '(inv %s)' % x
+            if m == 'pow':
+                if tx == 'Z': return '(2 ^ %s)%%Z' % self.e(n.args[0]) if x == '2' else '(%s ^ %s)%%Z' % (x, self.e(n.args[0]))
+                return '(fpow %s %s)' % (x, self.e(n.args[0]))
             raise TranslationError('method .%s() outside the subset' % m)
         if k == 'field':
             x = self.e(n.e)
@@ -431,6 +439,8 @@ class Tr:
             return '(if %s then %s else %s)' % (self.e(n.c), self.block_value(n.t), self.block_value(n.f))
         if k == 'blockexpr': return self.block_value(n.body)
         if k == 'index':
+            if n.e.k == 'field' and n.e.e.k == 'var' and n.e.e.name in self.cfg.get('tables', ()):
+                return '(tab (%s T) %s)' % ({'nonsquare_lookup': 'nonsq'}.get(n.e.name, n.e.name), self.e(n.ix))
             return '(nthZ %s %s)' % (self.e(n.e), self.e(n.ix))
         if k == 'range':
             lo = self.e(n.lo); hi = self.e(n.hi)
@@ -490,6 +500,9 @@ class Tr:
                     out.append('let %s := (p%s %s) in' % (self.pat(q), f.upper(), src))
                     self.ty[q.name] = 'F'
                 return '\n    '.join(out) + '\n    ' + self.stmts(rest, k)
+            if s.e.k == 'index' and s.e.e.k == 'field' and s.e.e.name == 's_lookup' and s.e.e.e.k == 'var' and s.e.e.e.name in self.cfg.get('tables', ()):
+                self.ty[s.pat.name] = 'Z'
+                return 'bind (s_lookup T %s) (fun %s =>\n    %s)' % (self.e(s.e.ix), self.pat(s.pat), self.stmts(rest, k))
             if s.e.k == 'try':
                 inner = self.e(s.e.e)
                 self.settype(s.pat, s.e.e, opt=True)
@@ -510,7 +523,7 @@ class Tr:
             if s.op == '=' and v not in self.ty: self.ty[v] = self.typeof(s.rhs)
             return 'let %s := %s in\n    %s' % (v, rhs, self.stmts(rest, k))
         if s.k == 'return':
-            return self.e(s.e)
+            return ('(Some %s)' % self.e(s.e)) if self.cfg.get('option_ret') else self.e(s.e)
         if s.k == 'exprstmt':
             e = s.e
             if e.k == 'if':
@@ -539,7 +552,7 @@ class Tr:
                 return '\n    '.join(out) + '\n    ' + self.stmts(rest, k)
             if e.k == 'blockexpr' and not rest: return self.stmts(e.body, k)
             if not rest and (s.tail or k is None):
-                return self.e(e)
+                return ('(Some %s)' % self.e(e)) if self.cfg.get('option_ret') else self.e(e)
             raise TranslationError('expression statement without effect')
         if s.k == 'for':
             vs = self.assigned(s.body)
@@ -649,6 +662,10 @@ TARGETS = [
      dict(params=[('le_bits', 'le_bits', 'LZ'), ('CT', 'CT', 'B')], consts=MIN_CONSTS,
           calls={'__add__': ('min_add', 'P'), '__double__': ('min_double', 'P')}, self_is='self', mk='mk',
           sig='(CT : bool) (self : pt) (le_bits : list Z) : pt', selfty='P')),
+  ('ark_sqrt_ratio', 'src/ark_curve/invsqrt.rs', 'sqrt_ratio_zeta', {},
+     dict(params=[('num', 'num', 'F'), ('den', 'den', 'F')], consts={'N': ('cN', 'Z'), 'M_MINUS_ONE_DIV_TWO': ('m_minus_one_div_two', 'Z'), 'ONE': ('1', 'F')},
+          calls={}, self_is='self', mk='mk', tables=('SQRT_LOOKUP_TABLES',), option_ret=True,
+          sig='(T : tables) (cN m_minus_one_div_two : Z) (num den : F) : option (bool * F)')),
   ('sign_abs', 'src/sign.rs', 'abs', {},
      dict(params=[], consts={}, calls={}, self_is='self', mk='mk', sig='(self : F) : F', selfty='F')),
 ]
@@ -656,7 +673,7 @@ TARGETS = [
 HEADER = '''(* GENERATED by translator/rs2v.py from the current source tree — do not edit.
    One Gallina definition per Rust function; see translator/rs2v.py for the translation rules. *)
 Require Import ZArith List Bool.
-From D377 Require Import Base.FieldSec Model.Decaf Model.GenPrelude.
+From D377 Require Import Base.FieldSec Model.Decaf Model.Sqrt Model.GenPrelude.
 Import ListNotations.
 
 Section Generated.
